@@ -21,7 +21,7 @@ RULE = (
     "-1 elsewhere), 0-2 unrestricted discrete states, 0-3 continuous states (linear/log, 2-7 nodes; a further axis re-uses the grid specification of an earlier one in 1 draw of 3), a random value "
     "array of the implied shape, prefix '' or 'next_'; evaluation points = grid nodes, interior points, collinear "
     "triples inside one cell, points up to one grid length outside linear grids (log grids only inside the range), "
-    "feasible label combinations only; evaluated plain, under jax.jit and under jax.vmap. Oracle: NumPy lookup + "
+    "feasible label combinations only, labels given as Python ints or as int64/int32/int16/int8/uint8 arrays (restricted states occasionally have 12 labels); evaluated plain, under jax.jit and under jax.vmap. Oracle: NumPy lookup + "
     "multilinear interpolation: stored value at nodes (1e-11*scale), formula value elsewhere (1e-9*scale), midpoint "
     "of a collinear triple = mean of the end points (1e-9*scale), and the signature is exactly the prefixed variable "
     "names + array name (+ indexer name). Non-trivial: >=1 restricted state whose mask has a False entry before a "
@@ -37,11 +37,16 @@ NAMES = ["zeta", "b_x", "Alpha", "k2", "mm", "q_y", "Wd"]
 
 @st.composite
 def cases(draw):
-    n_sp = draw(st.integers(0, 2))
+    # 1 case in 6: two restricted states with 12 labels each and one-byte labels (the 144 indexer
+    # cells cannot be counted in the labels' own type)
+    big_lookup = draw(st.integers(0, 999)) >= 850
+    n_sp = 2 if big_lookup else draw(st.integers(0, 2))
     n_dd = draw(st.integers(0, 2))
     n_c = draw(st.integers(0 if n_sp + n_dd else 1, 3))
     names = draw(st.permutations(NAMES))[: n_sp + n_dd + n_c]
-    sp = [[n, draw(st.integers(2, 4))] for n in names[:n_sp]]
+    # restricted states have 2-4 labels, occasionally 12 (12 x 12 = 144 indexer cells, more than
+    # a one-byte label type can count)
+    sp = [[n, 12 if big_lookup else draw(st.sampled_from([2, 3, 4, 2, 3, 4, 12, 12]))] for n in names[:n_sp]]
     dd = [[n, draw(st.integers(2, 4))] for n in names[n_sp:n_sp + n_dd]]
     cont = []
     for n in names[n_sp + n_dd:]:
@@ -76,7 +81,8 @@ def cases(draw):
     return {"sp": sp, "dd": dd, "cont": cont, "mask": mask, "prefix": draw(st.sampled_from(["", "next_"])),
             "vals": draw(st.lists(st.integers(-3000, 3000), min_size=64, max_size=64)), "points": pts,
             "exec": draw(st.sampled_from(["plain", "jit", "vmap"])), "tri_axis": draw(st.integers(0, 2)),
-            "array_name": draw(st.sampled_from(["vf_arr", "values_name"]))}
+            "array_name": draw(st.sampled_from(["vf_arr", "values_name"])),
+            "label_dtype": "int8" if big_lookup else draw(st.sampled_from([None, None, "int64", "int32", "int16", "int8", "uint8"]))}
 
 
 def strategy(tier):
@@ -174,13 +180,19 @@ def check(case):
         triple = (len(points), len(points) + 1, len(points) + 2)
         points += tri
 
+    ldt = case.get("label_dtype")
+
+    def as_label(lab):
+        # labels as Python ints or as integer arrays of the given (possibly narrow) type
+        return lab if ldt is None else jnp.asarray(lab, dtype=ldt)
+
     def kwargs_for(pt):
         lsp, ldd, xs, _ = pt
         kw = {}
         for (nme, _), lab in zip(sp, lsp):
-            kw[pre + nme] = lab
+            kw[pre + nme] = as_label(lab)
         for (nme, _), lab in zip(dd, ldd):
-            kw[pre + nme] = lab
+            kw[pre + nme] = as_label(lab)
         for c, x in zip(cont, xs):
             kw[pre + c[0]] = x
         return kw
@@ -189,7 +201,9 @@ def check(case):
     if case["exec"] == "vmap":
         def g(*a):
             return f(**dict(zip(var_names, a)), **helpers)
-        cols = [jnp.asarray([kwargs_for(pt)[v] for pt in points]) for v in var_names]
+        n_lab = len(sp) + len(dd)
+        cols = [jnp.asarray(np.asarray([np.asarray(kwargs_for(pt)[v]) for pt in points]),
+                            dtype=(ldt if (ldt and k < n_lab) else None)) for k, v in enumerate(var_names)]
         got = np.asarray(call_lcm(jax.vmap(g), *cols), dtype=float)
     else:
         fn = f
@@ -216,6 +230,8 @@ def check(case):
     cl = [f"exec_{case['exec']}", f"n_cont_{len(cont)}", f"n_restricted_{len(sp)}"]
     if any(c[1] == "log" for c in cont):
         cl.append("log_grid")
+    if ldt:
+        cl.append(f"labels_{ldt}")
     if len({tuple(c[1:]) for c in cont}) < len(cont):
         cl.append("equal_grids_on_several_axes")
     out = Outcome(digest=dg, classes=cl, nontrivial=nt, info={"points": len(points)})
